@@ -65,10 +65,7 @@ func (s *DefaultSession) SetExpiresAt(key fosite.TokenType, exp time.Time) {
 }
 
 func (s *DefaultSession) GetExpiresAt(key fosite.TokenType) time.Time {
-	if s.ExpiresAt == nil {
-		s.ExpiresAt = make(map[fosite.TokenType]time.Time)
-	}
-
+	// a getter does not initialise the map: sessions are read by concurrent requests (a nil map reads as empty)
 	if _, ok := s.ExpiresAt[key]; !ok {
 		return time.Time{}
 	}
